@@ -205,10 +205,7 @@ class TypeModel(object):
         return out
 
 
-_MODELS = {}
-
-
 def get_model(prog):
-    if id(prog) not in _MODELS:
-        _MODELS[id(prog)] = TypeModel(prog)
-    return _MODELS[id(prog)]
+    if "typemodel" not in prog.cache:
+        prog.cache["typemodel"] = TypeModel(prog)
+    return prog.cache["typemodel"]
